@@ -248,7 +248,7 @@ ALL = ["C%02d" % i for i in range(1, 21)]
 ADDED = {
     "C01": " Also: the same programs with ignore_exc for the read operations; flush_all with a delay; the repository's own 106 integration "
            "tests, run against the reference server through the fake socket module (lib/itplugin), every public call with its socket "
-           "activity validated by TLC against ConnRule. Keys with a line break inside (no blank) must leave nothing to read; a call that returns has asked the server itself (the same keyless / read operation repeated on one connection).",
+           "activity validated by TLC against ConnRule. Keys with a line break inside (no blank) must leave nothing to read; a call that returns has asked the server itself (the same keyless / read operation repeated on one connection). incr / decr with noreply=None, graceful shutdown, raw_command with an end token of its own (socket-level faults).",
     "C02": " spec/Proto.tla gives the request grammar (Render) and a strict tokenizer (Tokenize) in TLA+; TLC checks RoundTrip, Concatenation, "
            "Prefix and the Injection lemma over a small byte alphabet (spec/ProtoMC.tla) and WireRule judges the raw bytes each call wrote "
            "with that tokenizer (the Python parser is cross-checked against it). Also covered: stats arguments and operations without keys "
@@ -256,19 +256,19 @@ ADDED = {
            "batches of 70-300 keys with the illegal key late, and what the repository's integration tests wrote (spec/SentRule.tla). Buffer objects (bytearray, memoryview, array) as values: the payload is left open, well-formedness is required.",
     "C03": " The outcome of a public call includes the number of reply bytes it left unread.",
     "C04": " The grid now has 7 collection kinds (a key named more than once in list / iterator form: 120k points); values include subclasses "
-           "of str/int and mixed-type set_many batches.",
+           "of str/int and mixed-type set_many batches. Values of 64 KiB and more ending on a piece boundary.",
     "C05": " Histories are replayed on Client, PooledClient and a one-server HashClient; multi-key fetches may name a key twice; "
            "spec/ClientOps.tla models every method at wire level (commands, a faithful server, reply interpretation) and Cache.tla checks in "
            "every reachable state that client + server refine the abstract cache (WireRefinesAbstract) -- and, started in each of the 7.5k "
            "well-formed states of a bounded shape (SpecAll), in every state whether reachable within the depth or not: agreement on all "
            "(state, operation) pairs is agreement on histories of any length. The wire-level table is also bound to the code: the commands each replayed call sent are compared by TLC with ClientOps.Cmds (spec/CacheWireTrace.tla; a difference with equal results is model drift). Item-style access (c[k], c[k] = v, del c[k]) as spellings of get/set/delete; a three-server HashClient (one UNIX-socket server) with multi-key calls whose keys interleave over the servers.",
     "C06": " Also: HashClient stacks that give up on their server while it comes back (socket bookkeeping clauses only); the repository's "
-           "integration tests as a trace source (see C01). The server's name re-pointed to another address before / after a failure: the next call resolves again and works (a connect to the stale address is the client's fault, not the environment's).",
+           "integration tests as a trace source (see C01). The server's name re-pointed to another address before / after a failure: the next call resolves again and works (a connect to the stale address is the client's fault, not the environment's). Zero timeouts (non-blocking, not 'no timeout').",
     "C08": " What escapes a pooled call (capacity error or the call's own error, never an error raised inside pool.py), calls rejected "
            "before any exchange next to ordinary calls (two preemptions), and 'a connection is given back only by its holder'. "
            "spec/PoolInd.tla states the same statement-level steps for threads that go on forever and Apalache checks that its invariant is "
            "inductive (Init => IndInv; IndInv and Next => IndInv'): the safety clauses hold in executions of any length (3 threads; thorough "
-           "also 4); TLC checks the same shape facts (IndShape) on the bounded model.",
+           "also 4); TLC checks the same shape facts (IndShape) on the bounded model. Two-preemption plans around quit() (its connection is handed back on two paths).",
     "C09": " Also: every public operation x every single-fault plan on the pooled stacks, misc operations in the sequences, calls that fail "
            "without a connection fault (illegal key, dict-style read of an absent key), and 'nothing idle-expired stays pooled after a checkout'. spec/PoolSeq.tla is the as-coded sequential pool with its idle clock "
            "(carrying the PoolRule monitor): TLC explores every sequence to depth 7 (thorough 9), and every exported behaviour is replayed on "
@@ -279,14 +279,14 @@ ADDED = {
            "refused add_server / remove_server leave the rotation as it was. Apalache (symbolic) checks the placement lemmas and the as-coded "
            "fold for ALL natural-number score tables over 4 (thorough 5) nodes, every rotation and node order (spec/PlacementApa.tla). spec/ServerSpec.tla transcribes normalize_server_spec and the grammar of well-formed "
            "address spellings: TLC checks they agree on every string up to length 4 (thorough 6) over the address alphabet, and the real function "
-           "is run on every one of them (TLC judges the results; the as-coded prediction must match). Seeds other than 0 and copy / deepcopy of a hasher; upper-case letters in equivalent server spellings.",
+           "is run on every one of them (TLC judges the results; the as-coded prediction must match). Seeds other than 0 and copy / deepcopy of a hasher; upper-case letters in equivalent server spellings. bytes keys and compatibility characters in the placement keys (the score is murmur3 of the text '<node>-<key>' as Python formats it).",
     "C12": " Multi-key answers have the shape of the per-key operation (gets_many through a pooled HashClient).",
     "C13": " Also: connection-level errors that are no ConnectionError, server-answered errors that must not count as failures, per-server "
            "clients that honour ignore_exc, 'a server that answered is not sent the same request again in that call', and the result of "
            "multi-key reads under partial failure (written to by the harness afterwards: results are the caller's). 405 deterministic histories around the instants of eviction and revival; a quarter of them (and a fifth of the random ones) run the REAL Client on the fake network behind HashClient (servers that refuse, hang, or answer SERVER_ERROR; failing = what the environment says), a quarter use UNIX-socket servers, a quarter one single operation throughout; batches of one key.",
-    "C15": " After the caller changed the object it got, deserialising the same stored form again must still return the stored value. Values after a refused one on the same serde object; text beginning with U+FEFF and other signature characters; small / negative ints.",
+    "C15": " After the caller changed the object it got, deserialising the same stored form again must still return the stored value. Values after a refused one on the same serde object; text beginning with U+FEFF and other signature characters; small / negative ints. Floats that need 17 significant digits.",
     "C16": " Also: keys named twice, dict-style access, construction with unusual spellings of the shared options (str / non-ASCII prefixes). Every combination of connect_timeout / timeout given, None or left out (what the first exchange connects and talks under); a falsy serde object.",
-    "C17": " The wrapped client is a subclass instance with the mapping protocol; rc[k] (hit and miss), rc[k] = v and del rc[k] go through the same contract.",
+    "C17": " The wrapped client is a subclass instance with the mapping protocol; rc[k] (hit and miss), rc[k] = v and del rc[k] go through the same contract. Half of the item-style executions wrap a client without the mapping protocol.",
     "C18": " Half of the executions use plain argument values (negative / zero / large expiry, True/False/None, ...) compared by type and value; "
            "a miss returns nothing (the harness writes into every result it gets).",
     "C19": " The environment really fails nodes (open connection reset + refused): 'fault' events; blank IP fields without VPC addressing; "
@@ -294,7 +294,7 @@ ADDED = {
            "the rotation) is checked to be inductive by TLC started in EVERY state that satisfies it (SpecAny), and from every such state a "
            "reconfiguration establishes the contract: C19 for histories of any length. One execution in four with a TLS context (the address kind use_vpc selects does not depend on it).",
     "C20": " Validation is also exercised through operations: get / get_many / set / delete on the three classes, with ignore_exc, with an "
-           "unreachable server, with an empty rotation, and after the same text was validated as a stats argument. Every key-addressed operation (gets, gat, gats, touch, gets_many, set, add, append, cas, set_many, delete_many, incr) on Client, PooledClient, HashClient with and without ignore_exc: the key bytes of the command that went out.",
+           "unreachable server, with an empty rotation, and after the same text was validated as a stats argument. Every key-addressed operation (gets, gat, gats, touch, gets_many, set, add, append, cas, set_many, delete_many, incr) on Client, PooledClient, HashClient with and without ignore_exc: the key bytes of the command that went out. Multi-key probes pass one-shot iterators.",
 }
 
 
